@@ -232,9 +232,40 @@ def long_equation_system(r, huge=False):
     return mk("long", wt, nv, rows, ops)
 
 
+def hub_system(r):
+    """the transpose of a long equation: a few variables that occur in hundreds of equations (254..513: counters and
+    bucket arrays narrower than the number of equations), the equations themselves short; planted solution"""
+    wt = r.choice(list(WT))
+    w = WT[wt]
+    deg = r.choice([254, 255, 256, 256, 257, 258, 300, 511, 512, 513])
+    nhubs = r.choice([1, 1, 2, 3])
+    nv = nhubs + deg + r.choice([0, 5, deg])
+    planted = [rword(r, w) for _ in range(nv)]
+    hubs = r.sample(range(nv), nhubs)
+    others = [x for x in range(nv) if x not in hubs]
+    rows = []
+
+    def eq(v):
+        v = sorted(set(v))
+        c = 0
+        for x in v:
+            c ^= planted[x]
+        rows.append((v, c))
+
+    for h in hubs:
+        for k in range(deg):
+            eq([h] + r.sample(others, r.choice([1, 1, 2, 2, 3])))
+    for _ in range(r.randrange(0, 20)):
+        eq(r.sample(range(nv), r.choice([1, 2, 3])))
+    r.shuffle(rows)
+    ops = [{"op": "solve", "alg": a, "ctor": r.choice(["push", "parts"])} for a in ("lazy", "gauss")]
+    return mk("hub", wt, nv, rows, ops)
+
+
 def long_episodes(seed, count, huge=0):
     r = random.Random(seed ^ 0x256)
-    return [long_equation_system(r) for _ in range(count)] + [long_equation_system(r, huge=True) for _ in range(huge)]
+    return [long_equation_system(r) if k % 3 else hub_system(r) for k in range(count)] + \
+        [long_equation_system(r, huge=True) for _ in range(huge)]
 
 
 def ood_episodes(seed, count):
